@@ -27,13 +27,16 @@ FACTORY = {
     "slice 0:1": lambda ch: ("slice", ch, 0, 1),
     "chain self": lambda ch: ("chain", ch, ch),
     "join Z": lambda ch: ("join", ch, ("leaf", "Z"), None),
+    "join sel(Z)": lambda ch: ("join", ch, ("sel", ("leaf", "Z"), ("gt", ("ref", "d"), ("lit", "$k"))), None),
+    "Z join this": lambda ch: ("join", ("leaf", "Z"), ch, None),
     "mat": lambda ch: ("mat", ch, "m%d" % (sum(map(ord, fmt(ch))) % 100000)),
     "to it2": lambda ch: ("xfer", ch, "it2"),
     "to sq": lambda ch: ("xfer", ch, "sq"),
     "sel @it1": lambda ch: ("sel", ch, ("gt", C_, ("lit", "$k")), ("it1", True, True, False)),
 }
 EVAL = ("compile", "execute", "process", "diagnose")
-QUICK_FACTORY = ("calc d", "proj -b", "sel a>k", "sel b in [a,k]", "dedup", "sort -b,a", "slice 0:1", "chain self", "join Z", "mat",
+QUICK_FACTORY = ("calc d", "proj -b", "sel a>k", "sel b in [a,k]", "dedup", "sort -b,a", "slice 0:1", "chain self", "join Z", "join sel(Z)",
+                 "Z join this", "mat",
                  "to it2", "to sq", "sel @it1")
 
 
